@@ -340,6 +340,7 @@ def value_set(facts, var):
 
 # ----------------------------------------------------------------------------- lifting closure bodies into the creator's terms
 _OPT_COMB = re.compile(r"Option::<T>::(is_some_and|is_none_or|map|map_or|map_or_else|and_then|filter|inspect|take_if)$")
+_RES_COMB = re.compile(r"Result::<T, E>::(is_ok_and|map|map_or|map_or_else|and_then|inspect)$")
 _ITER_COMB = re.compile(r"(Iterator>?::(map|filter|any|all|find|position|for_each|try_for_each|filter_map|find_map|take_while|skip_while|flat_map|fold|try_fold|inspect|rposition)|<impl \[T\]>::(sort_by_key|sort_by_cached_key|retain)|Vec::<T, A>::retain)$")
 
 
@@ -392,6 +393,8 @@ def lifted_closures(prog, owner, S=None):
                         call_block = cb
                         if _OPT_COMB.search(n):
                             param = "%s@Some.0" % recv.lstrip("&")
+                        elif _RES_COMB.search(n):
+                            param = "%s@Ok.0" % recv.lstrip("&")
                         elif _ITER_COMB.search(n):
                             param = "elem(%s)" % recv
                         break
@@ -470,3 +473,21 @@ def unit_calls(prog, f, S=None):
 def nz(x):
     """strip leading reference/deref marks of a symbolic value"""
     return x.lstrip("&*")
+
+
+def ret_locals(fn):
+    """locals whose value is moved or copied (whole) into the return place: the return place of an inlined helper, a result temporary"""
+    ret = {0}
+    grew = True
+    while grew:
+        grew = False
+        for bl in fn.blocks:
+            if bl["cleanup"]:
+                continue
+            for s in bl["stmts"]:
+                if s["lhs"]["l"] in ret and not s["lhs"]["p"] and s["rhs"]["rv"] == "use":
+                    o = s["rhs"]["ops"][0]
+                    if o.get("pl") and not o["pl"]["p"] and o["pl"]["l"] not in ret and not (1 <= o["pl"]["l"] <= fn.argc):
+                        ret.add(o["pl"]["l"])
+                        grew = True
+    return ret
